@@ -531,8 +531,12 @@ func (w *world) exec(line string) {
 	case "clean":
 		run := unhx(tok[2])
 		w.cleanOracles(run)
+		// Clean reads -test.run / -test.count; restore them afterwards (the testing package
+		// re-reads both for its own loop)
+		oldRun, oldCount := flag.Lookup("test.run").Value.String(), flag.Lookup("test.count").Value.String()
 		flag.Set("test.run", run)
 		flag.Set("test.count", tok[3])
+		defer func() { flag.Set("test.run", oldRun); flag.Set("test.count", oldCount) }()
 		before := w.stamp()
 		out := captureStdout(func() {
 			switch tok[1] {
